@@ -157,6 +157,7 @@ var queries = []string{
 
 func main() {
 	run := ev.Start("C15")
+	defer run.Guard()
 	run.Rule("case = (generation, resolver base URL from the context-path grammar, resource path with percent-encoded hostile keys, query, with/without body); the library-built request URL is compared byte for byte " +
 		"(scheme, host, EscapedPath, RawQuery) with the reference builder ctx(base)+path?query; non-trivial = context path non-empty or key contains a character that needs escaping or a dot segment; " +
 		"distinct = distinct (base, path, query) triples. Contexts that hold the root name as a complete non-final segment are executed but only checked for scheme/host/query (left unspecified by the property).")
